@@ -11,6 +11,7 @@ from . import expr as X
 from .expr import E
 from .values import *
 
+APP_DEFS = ('yuvxyb_math::powf', 'yuvxyb_math::expf', 'yuvxyb_math::cbrtf', 'powf', 'expf', 'cbrtf', 'pow_exp::powf', 'pow_exp::expf', 'cbrtf::cbrtf')
 MAX_UNROLL = 8
 MAX_BLOCK_VISITS = 4000
 
@@ -273,6 +274,10 @@ class Interp:
         self.mode = mode
         self.overflow_checks = crate.overflow_checks
         self.depth = 0
+        # public scalar helpers kept as applications `app(key, args)` with a separately
+        # interpreted body (function summary), see apps.py
+        self.apps = APP_DEFS
+        self.in_summary = False
 
     # ---------- types
     def ty(self, tid): return self.crate.types[tid]
@@ -737,11 +742,13 @@ class Interp:
                 bits = s[1]
                 cv = c.val & ((1 << bits) - 1)
                 # mask 2^n - 1  -> remainder ;  mask ~(2^n - 1) -> floor to multiple
-                if cv & (cv + 1) == 0:
+                from .ranges import int_bounds as _ib
+                vlo, _vhi = _ib(v, st.pc)
+                if cv & (cv + 1) == 0 and vlo is not None and vlo >= 0:
                     n = cv.bit_length()
                     return X.binop('rem', v, X.const(s, 1 << n)) if n < bits else v
                 inv = (~cv) & ((1 << bits) - 1)
-                if inv & (inv + 1) == 0:
+                if inv & (inv + 1) == 0 and vlo is not None and vlo >= 0:
                     n = inv.bit_length()
                     q = X.binop('shr', v, X.const(s, n))
                     return X.binop('mul', q, X.const(s, 1 << n), wrap=False)
@@ -1143,6 +1150,19 @@ class Interp:
     def invoke(self, st, callee, args, dest_tid, site):
         if callee.get('kind') == 'unresolved':
             raise Unsupported(f"unresolved call {callee.get('gdef')}")
+        if callee.get('def') in self.apps and not self.in_summary and all(isinstance(a, E) for a in args) and callee.get('key') in self.crate.fns:
+            from .apps import summary
+            formals, body, rec = summary(self, callee['key'])
+            self.rec.obligations.extend(o for o in rec.obligations if o not in self.rec.obligations)
+            for pn in rec.panics:
+                if pn not in self.rec.panics: self.rec.panics.append(pn)
+            for u in rec.unsafe_ops:
+                if u not in self.rec.unsafe_ops: self.rec.unsafe_ops.append(u)
+            self.rec.models_used['app:' + callee['def']] = self.rec.models_used.get('app:' + callee['def'], 0) + 1
+            if all(a.is_const for a in args):
+                from .apps import expand_apps
+                return [(st, expand_apps(X.node('app', (callee['key'],) + tuple(args), body.ty), self.crate))]
+            return [(st, X.node('app', (callee['key'],) + tuple(args), body.ty))]
         m = self.models.lookup(callee)
         if m is not None:
             name = callee.get('def') or callee.get('gdef')
